@@ -445,8 +445,10 @@ func VerifC12FrontMatter() {
 	verifObserve("front", front)
 	verifObserve("rest", rest)
 	verifAssert(verifEqStr(front+rest, text), "C12/front-matter-split-loses-or-duplicates-bytes")
-	if len(rest) >= 3 {
-		verifAssert(verifConcreteBool(rest[0] == '-' && rest[1] == '-' && rest[2] == '-'), "C12/front-matter-rest-does-not-start-at-a-separator")
+	// the rest is nothing, or begins with the `---` that closes the front matter - however short it is (a file that is
+	// YAML to its last byte has no rest: a last line of one or two bytes belongs to the front matter)
+	if len(rest) > 0 {
+		verifAssert(len(rest) >= 3 && verifConcreteBool(rest[0] == '-' && rest[1] == '-' && rest[2] == '-'), "C12/front-matter-rest-does-not-start-at-a-separator")
 	}
 	verifCover("C12/frontmatter/end")
 }
